@@ -799,6 +799,100 @@ theorem tick_run {w : World} (hx : (tick w).exc = none) (so : List Dgram) :
         rfl
       rw [h1, hn]
 
+/-! ### the recipient loop of `forward_msg`: the reads (`fwd-read`) and the call (`fwd-handle`) -/
+
+/-- `TxMsg.trans(ver = v)`: the translated message carries the requested header version and the
+frame / timeslot number of the original -/
+theorem trans_hdr {m : Trxd.TxMsg} {v : Int} {rx : Trxd.RxMsg} (h : m.trans (some v) = .ok rx) :
+    rx.ver = v ∧ rx.fn = m.fn ∧ rx.tn = m.tn := by
+  unfold Trxd.TxMsg.trans at h
+  dsimp only at h
+  split at h
+  · split at h
+    · cases h
+    · injection h with h; rw [← h]; exact ⟨rfl, rfl, rfl⟩
+  · injection h with h; rw [← h]; exact ⟨rfl, rfl, rfl⟩
+
+/-- what the reads of one iteration of the recipient loop decide: recipient `k` is served iff it is
+another transceiver, it is running, its Rx frequency for the burst's frame is the sender's Tx
+frequency; the message is translated with the header version `k` has at that moment -/
+theorem fwdRead_some_iff (w : World) (j mfn k : Nat) (msg : Trxd.TxMsg) (txFreq : Option Int) (rx : Trxd.RxMsg) :
+    fwdRead w j msg mfn txFreq k = .ok (some rx) ↔
+      k ≠ j ∧ ∃ trx, w.trxs[k]? = some trx ∧ trx.running = true ∧ trx.getRxFreq mfn = .ok txFreq ∧
+        msg.trans (some trx.hdrVer) = .ok rx := by
+  unfold fwdRead
+  by_cases hkj : k = j
+  · simp [hkj]
+  rw [if_neg hkj]
+  cases htrx : w.trxs[k]? with
+  | none => simp
+  | some trx =>
+    simp only [Option.some.injEq, exists_eq_left', ne_eq, hkj, not_false_eq_true, true_and]
+    by_cases hrun : trx.running = true
+    · simp only [hrun, not_true_eq_false, if_false, true_and]
+      cases hrx : trx.getRxFreq mfn with
+      | error e => simp
+      | ok rxf =>
+        simp only [Except.ok.injEq]
+        by_cases hf : rxf = txFreq
+        · subst hf
+          simp only [not_true_eq_false, if_false, true_and]
+          cases htr : msg.trans (some trx.hdrVer) with
+          | error e => simp
+          | ok rx' => simp
+        · simp [hf]
+    · simp [hrun]
+
+
+theorem act_sock_keeps {s : State} {a : Act} (h : a ≠ Act.clk) :
+    (act s a).pc = s.pc ∧ (act s a).out = s.out ∧ (act s a).stale = s.stale := by
+  cases a with
+  | clk => exact absurd rfl h
+  | ctrl i sp d => exact ⟨rfl, rfl, rfl⟩
+  | data i d => exact ⟨rfl, rfl, rfl⟩
+
+/-- operations of the socket thread never touch the clock thread's control state, what it has sent
+and what it has reported -/
+theorem exec_sock_keeps : ∀ (xs : List Act) (s : State), (∀ a ∈ xs, a ≠ Act.clk) →
+    (exec s xs).pc = s.pc ∧ (exec s xs).out = s.out ∧ (exec s xs).stale = s.stale := by
+  intro xs
+  induction xs with
+  | nil => intro s _; exact ⟨rfl, rfl, rfl⟩
+  | cons a xs ih =>
+    intro s h
+    obtain ⟨h1, h2, h3⟩ := ih (act s a) (fun b hb => h b (List.mem_cons_of_mem _ hb))
+    obtain ⟨g1, g2, g3⟩ := act_sock_keeps (s := s) (h a List.mem_cons_self)
+    exact ⟨h1.trans g1, h2.trans g2, h3.trans g3⟩
+
+/-- the `fwd-read` action: the next control state is decided by `fwdRead`, nothing else changes -/
+theorem clockStep_fwd (s : State) {fn j mfn k : Nat} {msg : Trxd.TxMsg} {txFreq : Option Int} {ks : List Nat}
+    {emit drop : List Trxd.TxMsg} {js : List Nat}
+    (hpc : s.pc = Pc.fwd fn j msg mfn txFreq (k :: ks) emit drop js) :
+    clockStep s = { s with pc :=
+      (match fwdRead s.w j msg mfn txFreq k with
+       | .error e => Pc.dead e
+       | .ok none => Pc.fwd fn j msg mfn txFreq ks emit drop js
+       | .ok (some rx) => Pc.hdl fn j msg mfn txFreq k rx ks emit drop js) } := by
+  obtain ⟨w, pc, out, stale, sout⟩ := s
+  simp only at hpc
+  subst hpc
+  simp only [clockStep]
+  split <;> simp_all
+
+/-- the `fwd-handle` action: `handle_data_msg` of recipient `k` with the message translated earlier -/
+theorem clockStep_hdl (s : State) {fn j mfn k : Nat} {msg : Trxd.TxMsg} {txFreq : Option Int} {rx : Trxd.RxMsg}
+    {ks : List Nat} {emit drop : List Trxd.TxMsg} {js : List Nat}
+    (hpc : s.pc = Pc.hdl fn j msg mfn txFreq k rx ks emit drop js) :
+    clockStep s =
+      match handleDataMsg s.w k j msg rx with
+      | .error e => { s with pc := Pc.dead e }
+      | .ok (w, ds) => { s with w := w, out := s.out ++ ds, pc := Pc.fwd fn j msg mfn txFreq ks emit drop js } := by
+  obtain ⟨w, pc, out, stale, sout⟩ := s
+  simp only at hpc
+  subst hpc
+  simp only [clockStep]
+  split <;> simp_all
+
 /-! ### concrete schedules for the non-vacuity examples of Props/C03 -/
 
 /-- the demo world with the clock thread between two ticks -/
@@ -807,5 +901,7 @@ def demoState (c : Nat) : State := { w := demoWorld c }
 def demoArrivalActs : List Act := [.data 0 (demoBurst 100), .data 0 (demoBurst 90), .data 0 (demoBurst 110)]
 /-- `n` consecutive actions of the clock thread -/
 def clks (n : Nat) : List Act := List.replicate n Act.clk
+/-- the TRXC datagram `CMD RXTUNE 890000` (retunes a receiver away from the demo sender's 935 MHz) -/
+def demoRxtune : List Nat := PyStr.encodeUtf8 (PyStr.lit "CMD RXTUNE 890000\x00")
 
 end OsmoVerif.World.Sched
